@@ -329,6 +329,11 @@ def run_case(ctx, case):
         for idx in _elements(shape, rng, 2 if name.startswith('hyperu') else 4):
             xs = data[(slice(None), pp) + idx]
             ref, maj = O.series(t['mp'], list(xs))
+            # a floor relative to the largest coefficient scale: where the majorant of one order vanishes structurally (expit at 0 along
+            # an odd curve: f'' = f'''' = 0 and x_2 = x_4 = 0) the recurrences still add and subtract terms of the size of the neighbouring
+            # orders, and leave their rounding (1e-17) behind
+            mfloor = max(maj) * mp.mpf('1e-3')
+            maj = [m_ + mfloor for m_ in maj]
             got = yd[(slice(None), pp) + idx]
             if cplx and not np.iscomplexobj(yd):
                 # the imaginary part was dropped: compare as is (the reference is complex)
